@@ -219,8 +219,32 @@ def check(run):
         # N, L, weight
         for q, want in (('Pauli.N', 'self.g.shape[0]//2'), ('PauliList.L', 'self.gs.shape[0]'), ('PauliList.N', 'self.gs.shape[1]//2')):
             m = repo.func(prel, q)
-            rets = [norm(st.value).replace(' ', '') for st, _ in walk(m.node) if isinstance(st, ast.Return)]
-            run.check(rets in ([want], [want.replace('shape[0]', 'shape[-1]')], [want.replace('shape[1]', 'shape[-1]')]), 'R12.size', m, q, '%s must be %s (found %s)' % (q, want, rets))
+            rets = [st.value for st, _ in walk(m.node) if isinstance(st, ast.Return)]
+            # evaluated on sample shapes (g of 8 slots, gs of 5 rows x 8 slots): N = 4, L = 5, whatever the arithmetic looks like
+            okv = None
+            if len(rets) == 1:
+                def attr(nd, env, rec):
+                    if nd.attr == 'shape' and norm(nd.value) == 'self.g':
+                        return (8,)
+                    if nd.attr == 'shape' and norm(nd.value) == 'self.gs':
+                        return (5, 8)
+                    raise Undecidable('attribute ' + norm(nd))
+
+                def sub(nd, env, rec):
+                    return rec(nd.value)[rec(nd.slice)]
+
+                def call(nd, env, rec):
+                    if norm(nd.func) == 'len' and len(nd.args) == 1 and norm(nd.args[0]) in ('self.g', 'self.gs'):
+                        return 8 if norm(nd.args[0]) == 'self.g' else 5
+                    raise Undecidable('call')
+                try:
+                    okv = ev(rets[0], {}, attr=attr, sub=sub, call=call) == (5 if q.endswith('.L') else 4)
+                except (Undecidable, TypeError, IndexError):
+                    okv = None
+            if okv is None:
+                run.undecided('R12.size', m, q, 'size expression not evaluable')
+            else:
+                run.check(okv, 'R12.size', m, q, '%s must be %s (found %s)' % (q, want, [norm(r) for r in rets]))
         for q, shp in (('Pauli.weight', ['self.N', '2']), ('PauliList.weight', ['self.L', 'self.N', '2'])):
             m = repo.func(prel, q)
             rs = [c for c in ast.walk(m.node) if isinstance(c, ast.Call) and isinstance(c.func, ast.Attribute) and c.func.attr == 'reshape']
@@ -251,12 +275,60 @@ def check(run):
         # constructor defaults: phase 0 when omitted
         for q, fld, zero in (('Pauli.__init__', 'p', '0'), ('PauliList.__init__', 'ps', 'zeros')):
             ini = repo.func(prel, q)
-            sts = [st for st, _ in walk(ini.node) if isinstance(st, ast.Assign) and norm(st.targets[0]) == 'self.' + fld]
-            ok = len(sts) == 1 and isinstance(sts[0].value, ast.IfExp) and norm(sts[0].value.test).replace(' ', '') == '%sisNone' % fld \
-                and norm(sts[0].value.orelse) == fld and zero in norm(sts[0].value.body)
-            run.check(ok, 'R12.defaults', ini, sts[0] if sts else 'self.' + fld, 'an omitted phase means +1 (phase indicator 0); a given one is stored as is')
-            gsts = [st for st, _ in walk(ini.node) if isinstance(st, ast.Assign) and norm(st.targets[0]) in ('self.g', 'self.gs')]
-            run.check(len(gsts) == 1 and norm(gsts[0].value) in ('g', 'gs'), 'R12.defaults', ini, gsts[0] if gsts else 'self.g', 'the string is stored as given')
+            # the constructor is executed by the checker's interpreter twice: phase omitted (None) and phase given
+            from .. import mini
+
+            class _S:
+                def __init__(self, tag):
+                    self.tag = tag
+
+                def __repr__(self):
+                    return self.tag
+            gname, pname = ini.posparams[1], ini.posparams[2]
+            results = {}
+            for label, pv in (('omitted', None), ('given', _S('GIVEN'))):
+                stored = {}
+
+                def call(nd, env, rec):
+                    last = norm(nd.func).split('.')[-1]
+                    if last in ('zeros', 'zeros_like'):
+                        return _S('ZEROS')
+                    if last == 'super' or norm(nd.func).startswith('super('):
+                        return _S('SUPER')
+                    raise Undecidable('call ' + norm(nd.func))
+
+                def attr(nd, env, rec):
+                    v = rec(nd.value) if not isinstance(nd.value, ast.Name) or nd.value.id in env else None
+                    if isinstance(v, _S):
+                        return _S(v.tag + '.' + nd.attr)
+                    if norm(nd.value) in ('numpy', 'np', 'torch'):
+                        return _S(norm(nd))
+                    raise Undecidable('attribute ' + norm(nd))
+
+                def on_store(t, v, env, value, stored=stored):
+                    if isinstance(t, ast.Attribute) and norm(t.value) == ini.posparams[0]:
+                        stored[t.attr] = v
+
+                def sub(nd, env, rec):
+                    return _S('SUB')
+                env = {ini.posparams[0]: _S('self'), gname: _S('G'), pname: pv}
+                for extra in ini.posparams[3:] + ini.kwonly:
+                    env[extra] = _S('P_' + extra)
+                try:
+                    mini.execute(ini.node, env, call=call, attr=attr, on_store=on_store, sub=sub)
+                    results[label] = stored
+                except Undecidable as e:
+                    results[label] = str(e)
+            if any(isinstance(v, str) for v in results.values()):
+                run.undecided('R12.defaults', ini, 'self.' + fld, 'constructor not interpretable: %s' % results)
+            else:
+                om, gv = results['omitted'].get(fld), results['given'].get(fld)
+                ok = (om == 0 or (isinstance(om, _S) and om.tag == 'ZEROS')) and isinstance(gv, _S) and gv.tag == 'GIVEN'
+                run.check(ok, 'R12.defaults', ini, 'self.' + fld, 'an omitted phase means +1 (phase indicator 0); a given one is stored as is '
+                          '(omitted -> %r, given -> %r)' % (om, gv))
+                gfld = 'g' if fld == 'p' else 'gs'
+                gval = results['given'].get(gfld)
+                run.check(isinstance(gval, _S) and gval.tag == 'G', 'R12.defaults', ini, 'self.' + gfld, 'the string is stored as given (found %r)' % (gval,))
     a, b = per_pkg['pyclifford'], per_pkg['torchclifford']
     for i, what in enumerate(('phase prefixes', 'letters', 'letter tokens', 'phase tokens', 'reader table')):
         run.check(a[i] == b[i], 'R12.port', (K.TC_P, 'paulialg'), what, '%s differ between pyclifford and torchclifford: %r vs %r' % (what, a[i], b[i]))
